@@ -357,6 +357,10 @@ impl Engine for C12c {
         ]
     }
 
+    fn expected_probes() -> &'static [&'static str] {
+        &["gap_64_or_more", "gap_multiple_of_64", "reorder", "tick_wrap"]
+    }
+
     fn rule() -> &'static str {
         "component-level sub-batch: each evaluation feeds one arrival sequence (in-order with gaps, out-of-order within a window, bursts after a stall, losses, 1-4 messages per tick; base tick at 0, around 2^31 or just below 2^32) into ConfirmHistory and ServerMutateTicks through their public API and compares contains / contains_any / completion after every arrival with a plain set. distinct_nontrivial counts distinct (max gap class, reordered?, wrapped?, base class, length) signatures"
     }
